@@ -175,7 +175,6 @@ def run_merge_case(cid, c, want_rc, seed, tmproot):
 
 def _chunk(args):
     chunk, seed, tmproot = args
-    sys.path.insert(0, "/repo")
     logging.disable(logging.CRITICAL)
     import mosromgr.cli  # noqa: F401
     logging.disable(logging.CRITICAL)
